@@ -256,6 +256,65 @@ pub struct CliqueTreeView {
     pub ordering: Vec<usize>,
 }
 
+#[cfg(feature = "sdp")]
+fn tree_view(sp: &crate::solver::chordal::SparsityPattern) -> CliqueTreeView {
+    use crate::solver::chordal::*;
+    let t = &sp.sntree;
+    CliqueTreeView {
+        n: sp.ordering.len(),
+        snode: t.snode.iter().map(|s| s.iter().copied().collect()).collect(),
+        sep: t.separators.iter().map(|s| s.iter().copied().collect()).collect(),
+        parent: t
+            .snode_parent
+            .iter()
+            .map(|&p| {
+                if p == NO_PARENT {
+                    -1
+                } else if p == INACTIVE_NODE {
+                    -2
+                } else {
+                    p as i64
+                }
+            })
+            .collect(),
+        post: t.snode_post.clone(),
+        nblk: t.nblk.clone().unwrap_or_default(),
+        n_cliques: t.n_cliques,
+        ordering: sp.ordering.clone(),
+    }
+}
+
+/// What the chordal decomposition did to a problem at construction time.
+#[cfg(feature = "sdp")]
+#[derive(Clone, Debug, Default)]
+pub struct ChordalView {
+    /// (index of the decomposed cone in the pre-decomposition cone list, its clique tree)
+    pub trees: Vec<(usize, CliqueTreeView)>,
+    /// compact transformation (no H matrix) or standard
+    pub compact: bool,
+    /// dimensions (n, m) and cone list of the problem that was decomposed
+    pub init_dims: (usize, usize),
+    pub init_cones: Vec<crate::solver::SupportedConeT<f64>>,
+    /// for every cone of the augmented problem: original cone index and (tree, clique) if generated by a decomposition
+    pub cone_maps: Vec<(usize, Option<(usize, usize)>)>,
+}
+
+/// Read-only view of the chordal decomposition held by a solver's problem data (None: not decomposed).
+#[cfg(feature = "sdp")]
+pub fn chordal_view(data: &crate::solver::DefaultProblemData<f64>) -> Option<ChordalView> {
+    data.chordal_info.as_ref().map(|ci| ChordalView {
+        trees: ci.spatterns.iter().map(|sp| (sp.orig_index, tree_view(sp))).collect(),
+        compact: ci.H.is_none(),
+        init_dims: ci.init_dims,
+        init_cones: ci.init_cones.clone(),
+        cone_maps: ci
+            .cone_maps
+            .as_ref()
+            .map(|v| v.iter().map(|e| (e.orig_index, e.tree_and_clique)).collect())
+            .unwrap_or_default(),
+    })
+}
+
 /// Run the chordal analysis on an aggregate sparsity mask over the upper triangle
 /// (column-major, diagonal included) of a PSD cone of dimension `dim`.
 #[cfg(feature = "sdp")]
